@@ -80,7 +80,8 @@ ObsOK(st, o) ==
 
 \* the image is byte-canonical except for the order of Hll4 exception entries, which
 \* follows the writer's exception-table layout
-CanonicalImage(st) == ~(st.mode = "arr" /\ st.type = 4 /\ Cardinality(st.aux) >= 2)
+\* and for the HIP accumulator field of an out-of-order array, which carries no information
+CanonicalImage(st) == ~(st.mode = "arr" /\ ((st.type = 4 /\ Cardinality(st.aux) >= 2) \/ st.ooo))
 
 TInit == l = 1 /\ obj = <<>> /\ uni = <<>>
 
